@@ -336,6 +336,35 @@ def overlay_templates(keys):
     return out
 
 
+def rollback_templates(keys, maxlog):
+    """Hand-written legal NomtApi behaviours around rollbacks of overlay chains: a committed (or absent) key is
+    deleted / overwritten in overlay o1, written again in o2 on top of it, both are committed, then rolled back one
+    commit at a time.  The priors recorded for o2's delta must come from o1, not from the store."""
+    N = {k: "NoCh" for k in keys}
+    out = []
+    a, b = keys[0], keys[1]
+    for base in ("v1", None):
+        for w1 in ("Nil", "v2"):
+            for w2 in ("v1", "Nil", "v2"):
+                for flavour in (0, 1):
+                    beh = []
+                    if base:
+                        beh += [dict(a="Begin", s=1, chain=[], res="Ok"), dict(a="Finish", s=1, f=1, w=dict(N, **{a: base, b: "v1"})),
+                                dict(a="Commit", f=1, res="Ok")]
+                    beh += [dict(a="Begin", s=1, chain=[], res="Ok"), dict(a="Finish", s=1, f=1, w=dict(N, **{a: w1})),
+                            dict(a="IntoOverlay", f=1, o=1),
+                            dict(a="Begin", s=1, chain=[1], res="Ok"), dict(a="Finish", s=1, f=1, w=dict(N, **{a: w2, b: "v2"})),
+                            dict(a="IntoOverlay", f=1, o=2),
+                            dict(a="OverlayCommit" if flavour == 0 else "OverlayTryCommit", o=1, res="Ok"),
+                            dict(a="OverlayTryCommit" if flavour == 0 else "OverlayCommit", o=2, res="Ok"),
+                            dict(a="Rollback", n=1, res="Ok")]
+                    if maxlog >= 2:
+                        beh += [dict(a="Rollback", n=1, res="Ok")]
+                    beh += [dict(a="Close"), dict(a="Reopen")]
+                    out.append(beh)
+    return out
+
+
 # ----------------------------------------------------------------------------------------------
 # replay + validation
 # ----------------------------------------------------------------------------------------------
